@@ -2,9 +2,11 @@
 (* Implementation-shaped state machine for C01: ONE ACTION PER STAGE the library applies to a result on its way from
    a comparer (or an author-defined check_response) to the dictionary handed to edX.
 
-       comparer return -> standardize_cfn_return -> multiply by the answer's credit -> consolidate_results over
+       comparer return -> [MatrixGrader: shape / type errors raised, or turned into zero-grade results]
+       -> standardize_cfn_return -> multiply by the answer's credit -> consolidate_results over
        samples -> ItemGrader.check: best of the alternatives + wrong_msg
          -> [SingleListGrader: pad, consolidate_single_return, award/scale]  -> outer ItemGrader.check
+         -> [IntervalGrader: the two bounds as a SingleListGrader, then bracket grading, then award/scale]
          -> [ListGrader: nested check, un-grouping, partial_credit=False zeroing]
        -> key stripping -> attempt-based credit -> debug log append -> format_messages -> returned
 
@@ -21,7 +23,7 @@
    recomputed from its grade. *)
 EXTENDS ResultShape, TLC
 
-CONSTANTS Part,            \* "item" | "single" | "list"
+CONSTANTS Part,            \* "item" | "single" | "interval" | "list"
           MaxAlts, MaxSamples, MaxCalls, Correlated,
           AnsOpts, CmpReturns,           \* palettes of the item part
           LeafAns, LeafCmp, TableGrades, \* palettes of the leaves inside list stages
@@ -64,9 +66,21 @@ AnsPins(a) == IF AnsPin(a) # "none" /\ Eq(AnsCredit(a), One) THEN {AnsPin(a)} EL
 DictGrade == [d0 |-> Zero, d13 |-> Third, d12 |-> Half, d1 |-> One, d12m |-> Half, d0m |-> Zero]
 DictHasMsg == {"d12m", "d0m"}
 PartialCmp == {"P", "d13", "d12", "d12m"}          \* returns that carry partial credit
+(* instead of returning, the evaluation / the comparer may raise: "Es" a MathArray shape error, "Et" an InputTypeError
+   (validate_shape), "Ea" an ArgumentShapeError / MathArrayError.  MatrixGrader.check_response decides by its
+   configuration -- guard "suppress" (suppress_matrix_messages), "raise" (the defaults shape_errors=True,
+   is_raised=True) or "message" (both False) -- whether the call raises or the alternative scores a zero-grade result *)
+ErrEvents == {"Es", "Et", "Ea"}
+GuardOutcome(ev, guard) == IF guard = "suppress" THEN "silent"
+                           ELSE IF ev = "Ea" \/ guard = "raise" THEN "raise" ELSE "message"
 AltMark == <<"A1", "A2", "A3">>
 DebugTokens == {"BANNER", "LOGCMP", "LOGATT"}
 AttVal == [c1 |-> One, c12 |-> Half, c0 |-> Zero]
+SingleLike == Part \in {"single", "interval"}      \* an IntervalGrader is a SingleListGrader of two bounds
+\* how the bracket typed by the student fares against the author's bracket answers: it matches a full-credit answer,
+\* a half-credit answer with a message, a zero-credit answer, or none of them
+BracketOpts == {"b1", "b12", "b0", "bnone"}
+BracketCredit == [b1 |-> One, b12 |-> Half, b0 |-> Zero]
 
 Item(ok, g, m) == [ok |-> ok, g |-> g, m |-> m, text |-> TRUE, keys |-> ItemKeys, pos |-> 0]
 Positive(g) == Lt(Zero, g)
@@ -110,6 +124,13 @@ ConsolidateSingle(s, nE, pc) ==
       g == IF ~pc /\ Lt(g0, One) THEN Zero ELSE g0
   IN Item(GradeToOk(g), g, UNION {s[i].m : i \in 1..Len(s)})
 PadEntry == [Item("false", Zero, {}) EXCEPT !.keys = ItemKeys \cup {"all_awarded"}]
+\* IntervalGrader.grade_bracket: a bound that earned nothing is left alone; no matching bracket answer zeroes it;
+\* otherwise the credits multiply, the bracket's message is appended and ok is recomputed
+GradeBracket(r, b, mark) ==
+  IF IsZero(r.g) THEN r
+  ELSE IF b = "bnone" THEN [r EXCEPT !.g = Zero, !.ok = "false"]
+  ELSE LET g == Mul(r.g, BracketCredit[b])
+       IN [r EXCEPT !.g = g, !.ok = GradeToOk(g), !.m = IF b = "b12" THEN @ \cup {mark} ELSE @]
 
 \* ListGrader.check with partial_credit=False
 AllPerfect(s) == \A i \in 1..Len(s) : s[i].ok = "true"
@@ -140,7 +161,7 @@ Ungroup(layout, perGroup) ==
 
 \* the plan: which leaves are computed, in the order the code computes them
 Plan == IF Part = "item" THEN << [pos |-> 0, grp |-> 1, nested |-> FALSE, last |-> TRUE] >>
-        ELSE IF Part = "single" THEN [i \in 1..(IF cf.nE < cf.nI THEN cf.nE ELSE cf.nI) |->
+        ELSE IF SingleLike THEN [i \in 1..(IF cf.nE < cf.nI THEN cf.nE ELSE cf.nI) |->
                                         [pos |-> 0, grp |-> i, nested |-> FALSE, last |-> FALSE]]
         ELSE PlanFrom(GroupsOf(cf.layout), 1)
 
@@ -159,7 +180,7 @@ DefectOf(r, pins) == Defect(r, Form, NInputs, pins)
 
 (* ------------------------------------------------------------------ the state machine *)
 NoCf == [A |-> 1, S |-> 1, F |-> 0, corr |-> FALSE, nE |-> 1, nI |-> 1, pc |-> TRUE, la |-> "a1", layout |-> "none",
-         ipc |-> TRUE, lw |-> "?", pins |-> {}, att |-> "none", debug |-> FALSE]
+         ipc |-> TRUE, lw |-> "?", guard |-> "?", pins |-> {}, att |-> "none", debug |-> FALSE]
 NoRes == [nores |-> TRUE]
 NoLeaf == [kind |-> "formula", A |-> 1, S |-> 1, F |-> 0, corr |-> FALSE]
 
@@ -171,7 +192,7 @@ Start ==
   /\ st = "start"
   /\ \/ /\ Part = "item"
         /\ \E A \in 1..MaxAlts, S \in 1..MaxSamples, F \in 0..1, corr \in BOOLEAN :
-             /\ corr => (Correlated /\ S > 1)
+             /\ corr => (Correlated /\ S = 2)            \* one comparer call whatever the number of samples
              /\ A * (IF corr THEN 1 ELSE S) <= MaxCalls
              /\ cf' = [cf EXCEPT !.A = A, !.S = S, !.F = F, !.corr = corr]
              /\ ch' = << <<"alts", A>>, <<"samples", S>>, <<"failable", F>>, <<"corr", corr>> >>
@@ -179,6 +200,10 @@ Start ==
         /\ \E nE \in 1..2, nI \in 1..MaxItems, pc \in BOOLEAN, la \in ListAns :
              /\ cf' = [cf EXCEPT !.nE = nE, !.nI = nI, !.pc = pc, !.la = la]
              /\ ch' = << <<"expected", nE>>, <<"submitted", nI>>, <<"partial_credit", pc>>, <<"listans", la>> >>
+     \/ /\ Part = "interval"
+        /\ \E pc \in BOOLEAN, la \in ListAns :
+             /\ cf' = [cf EXCEPT !.nE = 2, !.nI = 2, !.pc = pc, !.la = la]
+             /\ ch' = << <<"partial_credit", pc>>, <<"listans", la>> >>
      \/ /\ Part = "list"
         /\ \E layout \in Layouts, pc \in BOOLEAN, ipc \in BOOLEAN :
              /\ ipc = FALSE => HasNested(layout)
@@ -193,7 +218,7 @@ LeafStart ==
   /\ \/ /\ Part = "item"
         /\ lf' = [kind |-> "formula", A |-> cf.A, S |-> cf.S, F |-> cf.F, corr |-> cf.corr]
         /\ st' = "alt" /\ ch' = Append(ch, <<"leaf", "formula">>)
-     \/ /\ Part = "single"
+     \/ /\ SingleLike
         /\ lf' = NoLeaf /\ st' = "alt" /\ ch' = Append(ch, <<"leaf", "formula">>)
      \/ /\ Part = "list"
         /\ \E kind \in {"table", "formula"} :
@@ -230,9 +255,21 @@ Compare ==
   /\ \E v \in (IF Part = "item" THEN CmpReturns ELSE LeafCmp) :
        /\ raw' = v
        /\ ch' = Append(ch, <<"cmp", v>>)
-  \* (a SingleListGrader does not hand its debug log to its subgrader: nothing of the leaf is logged there)
-  /\ st' = "standard" /\ log' = IF Part = "single" THEN log ELSE log \cup {"LOGCMP"}
-  /\ UNCHANGED <<cf, li, lf, ans, sres, altres, items, grp, res, vd>>
+       /\ st' = IF v \in ErrEvents THEN "guard" ELSE "standard"
+  /\ UNCHANGED <<cf, li, lf, ans, sres, altres, items, grp, res, log, vd>>
+
+\* MatrixGrader.check_response: the error leaves check_response (the other samples are never compared)
+MatrixGuard ==
+  /\ st = "guard"
+  /\ \E gd \in {"suppress", "raise", "message"} :
+       /\ cf.guard # "?" => gd = cf.guard
+       /\ ch' = IF cf.guard = "?" THEN Append(ch, <<"guard", gd>>) ELSE ch
+       /\ cf' = [cf EXCEPT !.guard = gd]
+       /\ IF GuardOutcome(raw, gd) = "raise" THEN st' = "raised" /\ altres' = altres
+          ELSE /\ altres' = Append(altres, Item("false", Zero, IF GuardOutcome(raw, gd) = "message" THEN {"EM"} ELSE {}))
+               /\ st' = IF Len(altres') < lf.A THEN "alt" ELSE "best"
+  /\ raw' = "-" /\ sres' = <<>>
+  /\ UNCHANGED <<li, lf, ans, items, grp, res, log, vd>>
 
 Standardize ==
   /\ st = "standard"
@@ -245,7 +282,10 @@ Multiply ==
   /\ st = "multiply"
   /\ sres' = [i \in 1..Len(sres) |-> Scale(sres[i], AnsCredit(ans[Len(ans)]))]
   /\ st' = "consol"
-  /\ UNCHANGED <<ch, cf, li, lf, ans, raw, altres, items, grp, res, log, vd>>
+  \* compare_evaluations has just logged the comparison data of all samples (a SingleListGrader does not hand its
+  \* debug log to its subgrader: nothing of the leaf is logged there)
+  /\ log' = IF SingleLike THEN log ELSE log \cup {"LOGCMP"}
+  /\ UNCHANGED <<ch, cf, li, lf, ans, raw, altres, items, grp, res, vd>>
 
 ConsolidateSamples ==
   /\ st = "consol"
@@ -257,9 +297,10 @@ ConsolidateSamples ==
 \* where a finished leaf goes
 AfterLeaf(r) ==
   IF Part = "item" THEN /\ res' = r /\ st' = "strip" /\ UNCHANGED <<li, items, grp>>
-  ELSE IF Part = "single" THEN
+  ELSE IF SingleLike THEN
        /\ items' = Append(items, r) /\ UNCHANGED <<grp, res>>
-       /\ IF li < Len(Plan) THEN st' = "leaf" /\ li' = li + 1 ELSE st' = "pad" /\ li' = li
+       /\ IF li < Len(Plan) THEN st' = "leaf" /\ li' = li + 1
+          ELSE st' = (IF Part = "interval" THEN "brackets" ELSE "pad") /\ li' = li
   ELSE IF Plan[li].nested THEN
        /\ grp' = Append(grp, r) /\ UNCHANGED <<items, res>>
        /\ IF Plan[li].last THEN st' = "ncheck" /\ li' = li ELSE st' = "leaf" /\ li' = li + 1
@@ -272,12 +313,12 @@ Best ==
   /\ st = "best"
   /\ LET b == BestOf(altres)
          rel == WrongRelevant(b)
-         fixed == Part = "single" /\ cf.lw # "?"
+         fixed == SingleLike /\ cf.lw # "?"
      IN \E w \in BOOLEAN :
           /\ ~rel => w
           /\ rel /\ fixed => (w <=> cf.lw = "y")
           /\ ch' = IF rel /\ ~fixed THEN Append(ch, <<"wrong", w>>) ELSE ch
-          /\ cf' = IF rel /\ Part = "single" THEN [cf EXCEPT !.lw = IF w THEN "y" ELSE "n"] ELSE cf
+          /\ cf' = IF rel /\ SingleLike THEN [cf EXCEPT !.lw = IF w THEN "y" ELSE "n"] ELSE cf
           /\ AfterLeaf([b EXCEPT !.m = IF rel /\ w THEN {"W"} ELSE b.m, !.pos = Plan[li].pos])
   /\ altres' = <<>> /\ ans' = <<>>
   /\ UNCHANGED <<lf, raw, sres, log, vd>>
@@ -289,6 +330,18 @@ Pad ==
      items' = items \o [i \in 1..(n - Len(items)) |-> PadEntry]
   /\ st' = "sconsol"
   /\ UNCHANGED <<ch, cf, li, lf, ans, raw, sres, altres, grp, res, log, vd>>
+
+\* IntervalGrader.check_response: the opening bracket is graded onto the lower bound's entry, the closing bracket
+\* onto the upper bound's
+Brackets ==
+  /\ st = "brackets"
+  /\ \E bo \in BracketOpts, bc \in BracketOpts :
+       /\ IsZero(items[1].g) => bo = "b1"            \* irrelevant when the bound earned nothing: one representative
+       /\ IsZero(items[2].g) => bc = "b1"
+       /\ items' = << GradeBracket(items[1], bo, "B1"), GradeBracket(items[2], bc, "B2") >>
+       /\ ch' = ch \o << <<"open", bo>>, <<"close", bc>> >>
+  /\ st' = "sconsol"
+  /\ UNCHANGED <<cf, li, lf, ans, raw, sres, altres, grp, res, log, vd>>
 
 SingleConsolidate ==
   /\ st = "sconsol"
@@ -379,15 +432,15 @@ FormatMessages ==
   /\ vd' = DefectOf(res, cf.pins)
   /\ UNCHANGED <<ch, cf, li, lf, ans, raw, sres, altres, items, grp, res, log>>
 
-Done == st = "returned" /\ UNCHANGED vars
+Done == st \in {"returned", "raised"} /\ UNCHANGED vars
 
-Next == \/ Start \/ LeafStart \/ TableReturn \/ NextAlt \/ Compare \/ Standardize \/ Multiply \/ ConsolidateSamples
-        \/ Best \/ Pad \/ SingleConsolidate \/ SingleAward \/ OuterBest \/ NestedCheck \/ UngroupStage
+Next == \/ Start \/ LeafStart \/ TableReturn \/ NextAlt \/ Compare \/ MatrixGuard \/ Standardize \/ Multiply \/ ConsolidateSamples
+        \/ Best \/ Pad \/ Brackets \/ SingleConsolidate \/ SingleAward \/ OuterBest \/ NestedCheck \/ UngroupStage
         \/ ZeroIfImperfect \/ StripKeys \/ AttemptCredit \/ DebugAppend \/ FormatMessages \/ Done
 Spec == Init /\ [][Next]_vars /\ WF_vars(Next)
 
 (* ------------------------------------------------------------------ what TLC checks *)
-Stages == {"start", "leaf", "table", "alt", "compare", "standard", "multiply", "consol", "best", "pad", "sconsol",
+Stages == {"start", "leaf", "table", "alt", "compare", "guard", "raised", "standard", "multiply", "consol", "best", "pad", "brackets", "sconsol",
            "saward", "obest", "ncheck", "ungroup", "zero", "strip", "attempt", "debug", "format", "returned"}
 SeqItems(s) == {s[i] : i \in 1..Len(s)}
 ItemsIn(r) == IF "nores" \in DOMAIN r THEN {} ELSE IF IsListForm(r) THEN SeqItems(r.items) ELSE {r}
@@ -426,6 +479,8 @@ InvListOrder == Part = "list" /\ st \in {"zero", "strip", "attempt", "debug", "f
 InvAllOrNothing == Part = "list" /\ st \in {"strip", "attempt"} /\ ~cf.pc =>
                      AllPerfect(res.items) \/ \A i \in 1..Len(res.items) : IsZero(res.items[i].g)
 InvStage == st \in Stages
-\* the pipeline terminates: every behaviour reaches "returned"  (checked with SPECIFICATION Spec)
-Terminates == <>(st = "returned")
+\* a call that raises returns nothing: no verdict is ever formed for it
+InvRaisedNoVerdict == st = "raised" => vd = "-"
+\* the pipeline terminates: every behaviour reaches "returned" or "raised"  (checked with SPECIFICATION Spec)
+Terminates == <>(st \in {"returned", "raised"})
 =============================================================================
